@@ -2,6 +2,7 @@ package main
 
 import (
 	"fmt"
+	"go/token"
 	"go/types"
 	"os"
 	"strings"
@@ -113,6 +114,98 @@ func runC18(p *Program, e *Engine, r *Result, tier string) {
 		if !gated {
 			wit = "a synthetic event is sent under " + stripIDs(bad.String())
 		}
+		// (9) the name of the synthesised Create is built from the event's name (which carries the user's spelling of a
+		// symlinked directory) and the entry's name - never read back from the watch record, which holds the link target
+		{
+			recT := kf.fdTable.Type().Underlying().(*types.Map).Elem()
+			var nameV ssa.Value
+			if ld, ok := arg.(*ssa.UnOp); ok {
+				if al, ok := ld.X.(*ssa.Alloc); ok {
+					if est, ok := deref(al.Type()).Underlying().(*types.Struct); ok {
+						for i := 0; i < est.NumFields(); i++ {
+							if est.Field(i).Name() == "Name" {
+								if fs := localFieldStore(al, i); fs != nil {
+									nameV = fs.Val
+								}
+							}
+						}
+					}
+				}
+			}
+			var fromRecord []string
+			seenN := map[cv]bool{}
+			var rec func(c *Ctx, x ssa.Value, depth int)
+			rec = func(c *Ctx, x ssa.Value, depth int) {
+				if x == nil || depth > 25 || isEventNameField(a, c, x) {
+					return
+				}
+				x = stripConv(x)
+				if seenN[cv{c, x}] {
+					return
+				}
+				seenN[cv{c, x}] = true
+				isRec := func(t types.Type) bool { return types.Identical(deref(t), recT) }
+				switch t := x.(type) {
+				case *ssa.Parameter, *ssa.FreeVar:
+					if b, ok := c.Bind[t]; ok && b.Val != nil {
+						rec(b.Ctx, b.Val, depth+1)
+					}
+				case *ssa.Phi:
+					for _, e := range t.Edges {
+						rec(c, e, depth+1)
+					}
+				case *ssa.BinOp:
+					rec(c, t.X, depth+1)
+					rec(c, t.Y, depth+1)
+				case *ssa.Field:
+					if isRec(t.X.Type()) {
+						fromRecord = append(fromRecord, stripIDs(c.path(t)))
+					}
+				case *ssa.UnOp:
+					if fa, ok := t.X.(*ssa.FieldAddr); ok {
+						if isRec(fa.X.Type()) {
+							fromRecord = append(fromRecord, stripIDs(c.path(t)))
+						}
+						return
+					}
+					if rv, rc := c.resolve(t); rv != ssa.Value(t) || rc != c {
+						rec(rc, rv, depth+1)
+					}
+				case *ssa.Call:
+					if t.Call.IsInvoke() {
+						return // DirEntry.Name(), FileInfo.Name(): the entry's own name
+					}
+					cal := c.calleeOf(&t.Call)
+					if cal == nil {
+						return
+					}
+					switch fullName(cal) {
+					case "path/filepath.Join":
+						if len(t.Call.Args) == 1 {
+							sv, sc := c.resolve(t.Call.Args[0])
+							if ins, _ := sliceInserted(sc, sv); len(ins) > 0 {
+								for _, in := range ins {
+									rec(in.c, in.v, depth+1)
+								}
+							}
+						}
+					case "path/filepath.Clean", "path/filepath.Dir", "path/filepath.Base":
+						rec(c, t.Call.Args[0], depth+1)
+					default:
+						if a.P.inMain(cal) {
+							if rv, rc := c.resolve(t); rv != ssa.Value(t) || rc != c {
+								rec(rc, rv, depth+1)
+							}
+						}
+					}
+				}
+			}
+			if nameV != nil {
+				rec(v.Ctx, nameV, 0)
+			}
+			a.R.ob("C18.9", "synthetic-create:named-by-event@"+shortFn(call.Parent()), "the synthesised Create is named from the event's name and the entry's name, not from the watch record (which holds the target of a symlinked directory, not the user's spelling)", a.P.instrPos(call),
+				nameV != nil && len(fromRecord) == 0, "read from the watch record: "+fmtList(uniq(fromRecord)))
+		}
 		a.R.ob("C18.1", "synthetic-create:gated@"+shortFn(call.Parent()), "a Create synthesised from a directory listing is sent only for a name not seen before", a.P.instrPos(call), gated && opConst == opBy["Create"], wit)
 		// followed by marking seen on the non-error continuation
 		var mark DNF
@@ -208,7 +301,7 @@ func runC18(p *Program, e *Engine, r *Result, tier string) {
 			clearPos = a.P.instrPos(v.Instr)
 			for _, c := range v.Cond {
 				for _, l := range c {
-					if l.A.Kind == AkBit && strings.HasSuffix(l.A.Subj, ".Op") {
+					if l.A.Kind == AkBit && isOpSubj(l.A) {
 						subj = l.A.Subj
 					}
 				}
@@ -279,8 +372,14 @@ func runC18(p *Program, e *Engine, r *Result, tier string) {
 			if !ok || fieldName(fa.X.Type(), fa.Field) != "Name" || len(strParams) < 2 {
 				continue
 			}
-			if st.Val == ssa.Value(strParams[1]) {
-				g, _ := v.Cond.everyConj(func(c Conj) bool {
+			// the stored name, through phis and small helpers: the second string parameter (the link name) under "it is
+			// not empty"
+			for _, e := range valueEdges(v.Ctx, st.Val, v.Cond) {
+				ev, _ := e.Ctx.resolve(e.V)
+				if ev != ssa.Value(strParams[1]) {
+					continue
+				}
+				g, _ := e.Cond.everyConj(func(c Conj) bool {
 					return c.has(func(l Lit) bool {
 						return l.A.Kind == AkCmp && l.Neg && l.A.K == `c:""` && l.A.Subj == "p:"+strParams[1].Name()
 					})
@@ -341,6 +440,100 @@ func runC18(p *Program, e *Engine, r *Result, tier string) {
 		}
 	}
 	c18RemoveBeforeCreate(a, "C18.7")
+	// (8) every descriptor the backend opens is registered for at least NOTE_DELETE and NOTE_RENAME: removal and rename of
+	// an entry (file or subdirectory) are reported whatever else is asked for
+	_, ntBy := nativeNames(a, "NOTE_")
+	need := ntBy["NOTE_DELETE"] | ntBy["NOTE_RENAME"]
+	nReg := 0
+	for _, root := range []*ssa.Function{ro.API["AddWith"], reader} {
+		if root == nil {
+			continue
+		}
+		rw := a.walk(root)
+		for _, v := range rw.Visits {
+			call, ok := v.Instr.(*ssa.Call)
+			if !ok {
+				continue
+			}
+			cal := v.Ctx.calleeOf(&call.Call)
+			if cal == nil || !a.P.inMain(cal) {
+				continue
+			}
+			// the function that registers with the kernel queue: it calls kevent(2) itself, and this call asks for EV_ADD
+			registers := false
+			for _, b := range cal.Blocks {
+				for _, in := range b.Instrs {
+					if c2, ok := in.(*ssa.Call); ok {
+						if f := c2.Call.StaticCallee(); f != nil && fullName(f) == "golang.org/x/sys/unix.Kevent" {
+							registers = true
+						}
+					}
+				}
+			}
+			if !registers {
+				continue
+			}
+			_, evBy := nativeNames(a, "EV_")
+			isAdd := false
+			for _, arg := range call.Call.Args {
+				if k, ok := v.Ctx.constUint(arg); ok && evBy["EV_ADD"] != 0 && k&evBy["EV_ADD"] != 0 && !isUint32(arg.Type()) {
+					isAdd = true
+				}
+			}
+			if !isAdd {
+				continue
+			}
+			for _, arg := range call.Call.Args {
+				if !isUint32(arg.Type()) {
+					continue
+				}
+				nReg++
+				// every way the mask can be built contains both bits
+				var lacking []string
+				seen := map[cv]bool{}
+				var rec func(c *Ctx, x ssa.Value) uint64 // bits certainly present
+				rec = func(c *Ctx, x ssa.Value) uint64 {
+					rv, rc := c.resolve(stripConv(x))
+					rv = stripConv(rv)
+					key := cv{rc, rv}
+					if seen[key] {
+						return ^uint64(0)
+					}
+					seen[key] = true
+					switch t := rv.(type) {
+					case *ssa.Const:
+						k, _ := constUint(t)
+						return k
+					case *ssa.BinOp:
+						if t.Op == token.OR {
+							return rec(rc, t.X) | rec(rc, t.Y)
+						}
+					case *ssa.Phi:
+						all := ^uint64(0)
+						for _, e := range t.Edges {
+							all &= rec(rc, e)
+						}
+						return all
+					}
+					return 0
+				}
+				have := rec(v.Ctx, arg)
+				if have&need != need {
+					lacking = append(lacking, sprintf("mask %s certainly contains only %#x of NOTE_DELETE|NOTE_RENAME (%#x)", stripIDs(v.Ctx.path(arg)), have&need, need))
+				}
+				key := sprintf("%s:registers-delete-and-rename@%s", shortFn(root), shortFn(call.Parent()))
+				a.R.ob("C18.8", key, "a descriptor is always registered for NOTE_DELETE and NOTE_RENAME (Remove and Rename of every watched entry are reported)", a.P.instrPos(call), len(lacking) == 0, strings.Join(lacking, "; "))
+			}
+		}
+	}
+	if nReg == 0 {
+		a.R.fail("anchor unresolved: calls that register a descriptor with the kernel queue (EV_ADD)")
+	}
+}
+
+func isUint32(t types.Type) bool {
+	b, ok := t.Underlying().(*types.Basic)
+	return ok && b.Kind() == types.Uint32
 }
 
 // c18RemoveBeforeCreate: a synthetic Create that the reader derives from a kevent reporting Remove (the removed name
@@ -397,7 +590,7 @@ func c18RemoveBeforeCreate(a *An, rule string) {
 		// only those derived from a kevent that reports Remove
 		underRemove, _ := s.Cond.everyConj(func(c Conj) bool {
 			return c.has(func(l Lit) bool {
-				return l.A.Kind == AkBit && !l.Neg && l.A.Bits == opBy["Remove"] && strings.HasSuffix(l.A.Subj, ".Op")
+				return l.A.Kind == AkBit && !l.Neg && l.A.Bits == opBy["Remove"] && isOpSubj(l.A)
 			})
 		})
 		if !underRemove {
